@@ -144,7 +144,7 @@ def gen_file_frame(rng):
     n = rng.randint(1, 8)
     cols = {}
     for nm in rng.sample(['id', 'amount', 'when', 'ünï', 'flag', 'n2', 'resistance_\u2126', 'length_\u212b', 'cafe\u0301_count'], rng.randint(1, 4)):
-        k = rng.choice(['int', 'real', 'date', 'bool'])
+        k = rng.choice(['int', 'real', 'date', 'bool', 'int', 'real', 'dateobj'])
         if k == 'int':
             cols[nm] = [rng.randint(-5, 50) for _ in range(n)]
             if rng.random() < 0.3:
@@ -158,6 +158,10 @@ def gen_file_frame(rng):
                                         rng.uniform(-1000, 1000), None]) for _ in range(n)]
         elif k == 'bool':
             cols[nm] = [rng.random() < .5 for _ in range(n)]
+        elif k == 'dateobj':
+            # calendar dates as objects (what a parquet date32 column loads as)
+            import datetime as _dt
+            cols[nm] = [_dt.date(2020, rng.randint(1, 12), rng.randint(1, 28)) for _ in range(n)]
         else:
             cols[nm] = pd.to_datetime([rng.choice(['2020-01-02 00:00:00', '2021-03-04 05:06:07', '1999-12-31 23:59:59'])
                                        for _ in range(n)], format='%Y-%m-%d %H:%M:%S')
@@ -313,6 +317,20 @@ def layer_b_case(arg):
                             % (dflags, (a or '')[:200], (b or '')[:200]))
         if dv.failures == 0 and os.path.exists(outp):
             problems.append('detect: nothing failed but an output file was left behind')
+        # with --write-all every record is written, in order, with its original fields: a field that has a value in the
+        # data has a value in the file
+        if a is not None and '--write-all' in dflags and '--no-output-fields' not in dflags:
+            import csv as _csv
+            rows_ = list(_csv.reader(io.StringIO(a)))
+            if rows_ and len(rows_) - 1 == len(ldf2):
+                for c_ in ldf2.columns:
+                    if c_ in rows_[0]:
+                        j_ = rows_[0].index(c_)
+                        empties = sum(1 for r_ in rows_[1:] if r_[j_] == '')
+                        nulls = int(ldf2[c_].isnull().sum())
+                        if empties != nulls:
+                            problems.append('detect %s: the output file has %d empty cells in field %r, the data has %d nulls there '
+                                            '(values such as %r are lost)' % (dflags, empties, c_, nulls, ldf2[c_].dropna().iloc[0] if nulls < len(ldf2) else None))
     # ---- several command lines in ONE process (tdda.constraints.console.main_with_argv, as an embedding program or a test
     # suite drives them): each behaves as the same command line in a process of its own
     if idx % 3 == 0:
